@@ -942,7 +942,9 @@ class Connection (EventMixin):
 
       if buf_len - offset < msg_length: break
 
-      new_offset,msg = self.unpackers[ofp_type](self.buf, offset)
+      # Only let the unpacker see the bytes which belong to this message
+      new_offset,msg = self.unpackers[ofp_type](self.buf[:offset+msg_length],
+                                                offset)
       assert new_offset - offset == msg_length
       offset = new_offset
 
